@@ -92,7 +92,13 @@ int main(int argc, char** argv) {
             int ac, ec; char** av; char** ev;
             av = read_vector(strtok(NULL, " \n"), &ac);
             ev = read_vector(strtok(NULL, " \n"), &ec);
-            fprintf(out, "ok %d\n", wasiInit(ac, av, ev) ? 1 : 0);
+            {
+                /* optional: the host passes only the first ac - trim entries of a longer array (argv[argc] is then NOT NULL) */
+                char* t = strtok(NULL, " \n");
+                int trim = t ? atoi(t) : 0;
+                if (trim > ac) trim = ac;
+                fprintf(out, "ok %d\n", wasiInit(ac - trim, av, ev) ? 1 : 0);
+            }
         } else if (strcmp(cmd, "preopen") == 0) {
             char* p = strtok(NULL, "\n"); U32 fd = 0xffffffffu; bool ok;
             ok = wasiFileDescriptorAdd(-1, p, &fd);
